@@ -485,6 +485,15 @@ func (a *Arith) Conv(from, to NumT, x *Term) *Term {
 		}
 	}
 	m := Const(IntSort, bigPow2(uint(to.Bits)))
+	// sign change without narrowing: the operand lies in the range of its own type, so the wrap is
+	// a single conditional offset (linear; much easier for the solvers than mod)
+	if to.Bits >= from.Bits && from.Signed && !to.Signed {
+		return tagBits(Ite(IntCmp("<", x, ConstI(IntSort, 0)), IntOp("+", x, m), x), to.Bits)
+	}
+	if to.Bits == from.Bits && !from.Signed && to.Signed {
+		h := Const(IntSort, bigPow2(uint(to.Bits-1)))
+		return Ite(IntCmp(">=", x, h), IntOp("-", x, m), x)
+	}
 	if !to.Signed {
 		return tagBits(IntOp("mod", x, m), to.Bits)
 	}
